@@ -298,6 +298,7 @@ func c15Run(c *core.Ctx, b core.Batch) {
 		c15ActiveAtShutdown(c) // first: it counts listener goroutines in a process that has had no other query events
 		c15FailSub(c, p)
 		c15Restart(c)
+		c15NonPositiveDuration(c)
 		return
 	}
 	env, err := newC15Env(c, p)
@@ -893,6 +894,43 @@ func c15Restart(c *core.Ctx) {
 			default:
 				c.Violation("C15/expired-late:restart", fmt.Sprintf("query event duration set to %v while stopped, but %v later the callback got nil %d times (the first run's duration was %v)", sc.d2, 40*sc.d2, len(got), sc.d1), desc)
 			}
+		}
+		rg.stop()
+	}
+}
+
+// c15NonPositiveDuration: a configured duration of zero (or less) means the query
+// event ends at once - not after some default. The final nil must arrive long before
+// the library's default duration (3 s) would have passed.
+func c15NonPositiveDuration(c *core.Ctx) {
+	rigInstall()
+	for _, d := range []time.Duration{0, -time.Second} {
+		rg := newRig("svc", func(s *res.Service) {
+			s.SetQueryEventDuration(d)
+			s.Handle("q.$id", res.GetCollection(func(r res.CollectionRequest) { r.NotFound() }))
+		})
+		if err := rg.start(); err != nil {
+			c.Inconclusive("start: " + err.Error())
+			return
+		}
+		gotNil := make(chan struct{}, 4)
+		t0 := time.Now()
+		rg.S.With("svc.q.1", func(r res.Resource) {
+			t0 = time.Now()
+			r.QueryEvent(func(qr res.QueryRequest) {
+				if qr == nil {
+					gotNil <- struct{}{}
+				}
+			})
+		})
+		c.Eval(1)
+		c.Obs("non_positive_duration_cases", 1)
+		select {
+		case <-gotNil:
+			c.Max("non_positive_duration_nil_after_us", int64(time.Since(t0)/time.Microsecond))
+			c.Distinct(fmt.Sprintf("non-positive-duration/%v", d))
+		case <-time.After(1200 * time.Millisecond):
+			c.Violation("C15/expired-late:non-positive-duration", fmt.Sprintf("query event duration configured as %v: no final nil call within 1.2 s", d), map[string]interface{}{"configured_duration": d.String()})
 		}
 		rg.stop()
 	}
